@@ -9,7 +9,8 @@ from __future__ import annotations
 import ast
 
 from ..flow import call_name, dotted, norm
-from ..index import AnalysisError, Resolver
+from .. import shape
+from ..index import AnalysisError, Resolver, walk_local
 from ..lib import (cfg_of, compare_parts, defs_of, differs_edge, edge_leads_only_to_raise,
                    edge_successors, find_memo_sites, is_super_call, live, names_in, node_has,
                    nodes_calling, nodes_with, own_exprs, reassigned_names, return_nodes,
@@ -26,6 +27,258 @@ EXPLANATION = (
 
 PR = "pint.facets.plain.registry"
 DIM_CALLS = {"_get_dimensionality", "get_dimensionality"}
+
+
+# ---------------------------------------------------------------------------------------------------------------------
+# role-based helpers shared by the C01 / C02 / C17 packs.  They work on the *original* (normal-form) tree of a function,
+# so reports carry real line numbers, and never on the spelling of a local name: locals are discovered by what they hold.
+_MUTATED: dict = {}
+
+
+def mutated_names(fn):
+    """Local names of `fn` that denote an object which is changed in place (`N[k] = v`, `N[k] += v`, `del N[k]`,
+    `N.add(..)` / `.append(..)` / ...): such a name is not a temporary standing for its initial value."""
+    if id(fn) not in _MUTATED:
+        from ..flow import MUTATORS
+        out = set()
+        for x in ast.walk(fn):
+            if isinstance(x, ast.Subscript) and isinstance(x.ctx, (ast.Store, ast.Del)) and isinstance(x.value, ast.Name):
+                out.add(x.value.id)
+            elif isinstance(x, ast.Call) and isinstance(x.func, ast.Attribute) and x.func.attr in MUTATORS and isinstance(x.func.value, ast.Name):
+                out.add(x.func.value.id)
+        _MUTATED[id(fn)] = (fn, out)
+    return _MUTATED[id(fn)][1]
+
+
+def resolve(e, fn, depth=6):
+    """shape.resolve that keeps the names of objects mutated in place: `seen = set(); ...; seen.add(x); ...; k in seen`
+    must not read `k in set()`."""
+    keep = mutated_names(fn)
+
+    def go(x, d):
+        if isinstance(x, ast.Name) and isinstance(x.ctx, ast.Load) and d > 0 and x.id not in keep:
+            v = shape.dominating_def(x, fn)
+            if v is not None and not isinstance(v, (ast.Lambda, ast.Yield, ast.Await)):
+                return go(v, d - 1)
+            return ast.Name(id=x.id, ctx=ast.Load())
+        if isinstance(x, ast.AST):
+            new = x.__class__()
+            for f_ in x._fields:
+                v = getattr(x, f_, None)
+                if isinstance(v, list):
+                    setattr(new, f_, [go(i, d) if isinstance(i, ast.AST) else i for i in v])
+                elif isinstance(v, ast.AST):
+                    setattr(new, f_, go(v, d))
+                else:
+                    setattr(new, f_, v)
+            for a in ("lineno", "col_offset", "end_lineno", "end_col_offset"):
+                if hasattr(x, a):
+                    setattr(new, a, getattr(x, a))
+            return new
+        return x
+    return go(e, depth)
+
+
+def rnorm(e, fn):
+    return norm(resolve(e, fn))
+
+
+def find_expr(fn, pattern, within=None, deep=None):
+    """[(node, bindings)]: the live expression nodes of function node `fn` (own scope, or only those inside `within`)
+    that match `pattern` (shape.match syntax) as written or after resolving local temporaries (and, with
+    deep=(ix, fi), after expanding module constants / single-return helpers)."""
+    pat = ast.parse(pattern, mode="eval").body
+    out = []
+    for x in walk_local(within if within is not None else fn):
+        if type(x) is not type(pat) or isinstance(x, ast.Name) or isinstance(getattr(x, "ctx", None), (ast.Store, ast.Del)):
+            continue
+        b = shape.match(pat, x)
+        if b is None:
+            b = shape.match(pat, resolve(x, fn))
+        if b is None and deep is not None:
+            b = shape.match(pat, shape.deep(deep[0], deep[1], x, fn))
+        if b is not None and not shape.dead(x, fn):
+            out.append((x, b))
+    return out
+
+
+def find_stores(fn, pattern, within=None):
+    """[(stmt, bindings)]: the live assignments (plain, annotated or augmented) of `fn` whose target matches `pattern`
+    as written or with the temporaries inside the target resolved."""
+    pat = ast.parse(pattern, mode="eval").body
+    out = []
+    for st in walk_local(within if within is not None else fn):
+        tg = st.targets if isinstance(st, ast.Assign) else [st.target] if isinstance(st, (ast.AugAssign, ast.AnnAssign)) else []
+        for t in tg:
+            b = shape.match(pat, t) if type(t) is type(pat) else None
+            if b is None and type(t) is type(pat):
+                b = shape.match(pat, resolve(t, fn))
+            if b is not None and not shape.dead(st, fn):
+                out.append((st, b))
+    return out
+
+
+def facts(node, fn):
+    """shape.facts_at, with an atom that is a local flag (`is_reference = isinstance(a, str) and '=' in a`) replaced by
+    the atoms of the condition the flag stands for."""
+    out = []
+    for a, t in shape.facts_at(node, fn):
+        v = shape.unalias(a, fn) if isinstance(a, ast.Name) else a
+        if v is not a and not isinstance(v, (ast.Name, ast.Constant)):
+            out += list(shape.conjuncts(v, "t" if t else "f"))
+        else:
+            out.append((a, t))
+    return out
+
+
+def known(node, fn, pattern, truth, where=None):
+    """Bindings of the first fact matching `pattern` (as written or resolved) that is known to be `truth` where `node`
+    executes.  `where(bindings, R)` may refine: R(wildcard) is the text of what the wildcard matched with local
+    temporaries resolved.  None if there is no such fact."""
+    for a, t in facts(node, fn):
+        if t != truth:
+            continue
+        b = shape.match(pattern, a)
+        if b is not None:
+            def R(w, a=a, b=b):
+                hit = next((x for x in ast.walk(a) if isinstance(x, ast.expr) and norm(x) == b[w]), None)
+                return rnorm(hit, fn) if hit is not None else b[w]
+            if where is None or where(b, R):
+                return b
+        b = shape.match(pattern, resolve(a, fn))
+        if b is not None and (where is None or where(b, lambda w, b=b: b[w])):
+            return b
+    return None
+
+
+def closure_defs(fi, name):
+    """The values assigned to the free variable `name` of `fi` in the nearest enclosing function that binds it:
+    [(value, enclosing FuncInfo)]; [] if it is a parameter there or not found."""
+    cur = getattr(fi, "parent", None)
+    while cur is not None and isinstance(getattr(cur, "node", None), (ast.FunctionDef, ast.AsyncFunctionDef)):
+        d = defs_of(cur)
+        vals = [(v, cur) for (v, kind, st) in d.defs.get(name, []) if kind == "assign" and v is not None]
+        if vals or name in d.params:
+            return vals
+        cur = getattr(cur, "parent", None)
+    return []
+
+
+def returned_def(fi, what):
+    """The nested function that `fi` returns (`def g(...): ...` followed by `return g`), whatever it is called."""
+    kids = {g.name: g for g in fi.module.all_functions if g.parent is fi}
+    for r in shape.returns_of(fi.node):
+        v = shape.unalias(r.value, fi.node)
+        if isinstance(v, ast.Name) and v.id in kids:
+            return kids[v.id]
+    raise AnalysisError(f"{fi.name}: {what} (a nested function that is returned) not found")
+
+
+def enclosing_iteration(node, fn):
+    """(target, iterable) of the innermost `for` loop body / comprehension element that contains `node`."""
+    cur = node
+    while cur is not None and cur is not fn:
+        par = getattr(cur, "_parent", None)
+        if isinstance(par, (ast.For, ast.AsyncFor)) and any(cur is s for s in par.body):
+            return par.target, par.iter
+        if isinstance(par, (ast.ListComp, ast.SetComp, ast.GeneratorExp, ast.DictComp)) and not isinstance(cur, ast.comprehension) and len(par.generators) == 1:
+            return par.generators[0].target, par.generators[0].iter
+        cur = par
+    return None
+
+
+def is_signature(text, fi):
+    """`text` denotes inspect.signature(<wrapped function>): the parameter `sig`, the call itself, or a closure variable
+    holding it."""
+    pats = ("signature(_F)", "inspect.signature(_F)")
+    e = ast.parse(text, mode="eval").body
+    if any(shape.match(p, e) is not None for p in pats):
+        return True
+    if not isinstance(e, ast.Name):
+        return False
+    if e.id == "sig" and e.id in defs_of(fi).params:
+        return True
+    return any(shape.match(p, v) is not None for v, _ in closure_defs(fi, e.id) for p in pats)
+
+
+def signature_walk(node, fi, npos):
+    """Role: `node` is evaluated once per parameter *name* of the wrapped function's signature, in declaration order
+    (`sig.parameters` itself or an order-preserving view of it: enumerate / list / tuple / iter / .keys() / islice from a
+    lower bound / a `[lower:]` slice).  Returns None if it is not, else (name_var, index_texts, beyond): the variable
+    holding the parameter name, the spellings of its absolute position (empty if there is no counter), and whether
+    `node` is only reached for the parameters after the first `npos` (text, e.g. 'len(args)') ones."""
+    it = enclosing_iteration(node, fi.node)
+    if it is None:
+        return None
+    target, e = it[0], resolve(it[1], fi.node)
+    enumerated, start, lower = False, "0", "0"
+    if isinstance(e, ast.Call) and call_name(e) == "enumerate" and e.args:
+        enumerated = True
+        start = norm(e.args[1]) if len(e.args) > 1 else next((norm(k.value) for k in e.keywords if k.arg == "start"), "0")
+        e = e.args[0]
+    while True:
+        if isinstance(e, ast.Call) and call_name(e) in ("list", "tuple", "iter") and len(e.args) == 1 and not e.keywords:
+            e = e.args[0]
+        elif isinstance(e, ast.Call) and call_name(e) == "islice" and len(e.args) in (3, 4) and lower == "0" and norm(e.args[2]) == "None" and (len(e.args) == 3 or norm(e.args[3]) in ("None", "1")):
+            lower, e = norm(e.args[1]), e.args[0]
+        elif isinstance(e, ast.Call) and isinstance(e.func, ast.Attribute) and e.func.attr == "keys" and not e.args:
+            e = e.func.value
+        elif isinstance(e, ast.Subscript) and isinstance(e.slice, ast.Slice) and e.slice.upper is None and e.slice.step is None and lower == "0":
+            lower, e = (norm(e.slice.lower) if e.slice.lower is not None else "0"), e.value
+        elif isinstance(e, ast.Name) and len(closure_defs(fi, e.id)) == 1:
+            (v, owner), = closure_defs(fi, e.id)        # a view prepared once by the enclosing function
+            e = resolve(v, owner.node)
+        else:
+            break
+    m = shape.match("_S.parameters", e)
+    if m is None or not is_signature(m["_S"], fi):
+        return None
+    if enumerated:
+        if not (isinstance(target, ast.Tuple) and len(target.elts) == 2 and all(isinstance(t, ast.Name) for t in target.elts)):
+            return None
+        counter, name = target.elts[0].id, target.elts[1].id
+        # the absolute position of the parameter in terms of the counter
+        index = [counter] if start == lower else [f"{lower} + {counter}", f"{counter} + {lower}"] if start == "0" else []
+    elif isinstance(target, ast.Name):
+        counter, index, name = None, [], target.id
+    else:
+        return None
+    beyond = lower == npos
+    if not beyond and lower == "0" and index == [counter]:
+        beyond = any((t and norm(resolve(a, fi.node)) in (f"{counter} >= {npos}", f"{npos} <= {counter}")) or
+                     (not t and norm(resolve(a, fi.node)) in (f"{counter} < {npos}", f"{npos} > {counter}")) for a, t in facts(node, fi.node))
+    return name, index, beyond
+
+
+def additions(fn, name):
+    """The element expressions that are added to the list `name` in `fn`: x of `name.append(x)`, and of `name.extend(xs)` /
+    `name += xs` the element of a comprehension xs (xs itself when it is not a comprehension)."""
+    out = [x.args[0] for x, _ in find_expr(fn, f"{name}.append(_X)")]
+    more = [x.args[0] for x, _ in find_expr(fn, f"{name}.extend(_X)")] + [st.value for st, _ in find_stores(fn, name) if isinstance(st, ast.AugAssign)]
+    for e in more:
+        e = shape.unalias(e, fn)
+        out.append(e.elt if isinstance(e, (ast.GeneratorExp, ast.ListComp)) else e)
+    return out
+
+
+def conditional_in(node, loop):
+    """The construct that makes `node` (a statement inside `loop`) conditional within one iteration: an enclosing
+    if / try / while / conditional expression, or an earlier statement that can leave the iteration silently
+    (continue / break / return).  None if `node` runs on every iteration that does not raise."""
+    cur = node
+    while cur is not None and cur is not loop:
+        par = getattr(cur, "_parent", None)
+        if isinstance(par, (ast.If, ast.While, ast.Try, ast.IfExp, ast.ExceptHandler)) and not (isinstance(par, ast.If) and cur is par.test):
+            return par
+        for fld in ("body", "orelse", "finalbody"):
+            lst = getattr(par, fld, None)
+            if isinstance(lst, list) and any(cur is s for s in lst):
+                for st in lst[:[i for i, s in enumerate(lst) if s is cur][0]]:
+                    for x in ast.walk(st):
+                        if isinstance(x, (ast.Continue, ast.Break, ast.Return)):
+                            return st
+        cur = par
+    return None
 
 
 def _dim_derived(defs, e, depth=4) -> bool:
@@ -275,8 +528,7 @@ def run(ck, ix, tier):
 
     # registry_helpers.check wrapper: verdict from Quantity.check / get_dimensionality, mismatch raises DimensionalityError
     fi = ix.func("pint.registry_helpers", "check")
-    wrappers = [f for f in fi.module.all_functions if f.name == "wrapper" and f.qualname.startswith(fi.qualname)]
-    ck.floor("G-DOM", len(wrappers), 1, "wrapper function inside registry_helpers.check")
+    wrappers = [returned_def(returned_def(fi, "decorator"), "wrapper")]
     for w in wrappers:
         ck.analysed(w)
         cfg = cfg_of(w)
@@ -424,28 +676,32 @@ def recursion_exponent_rule(ck, ix, qual):
 
 
 def check_wrapper_order_rule(ck, ix):
+    """ureg.check: the values handed to the dimension checks are the positional arguments followed by the remaining
+    parameters looked up by name while walking the signature in order, and they are zipped with the declared
+    dimensions.  Roles: PACKED / KW = the two results of _apply_defaults(...); additions to PACKED = `.append(x)` /
+    `.extend(xs)` / `+= xs`."""
     fi = ix.func("pint.registry_helpers", "check")
-    for w in [f for f in fi.module.all_functions if f.name == "wrapper" and f.qualname.startswith(fi.qualname)]:
-        from ..lib import roots_with_closure
-        # the packed argument list and the keyword mapping, by role: the two results of _apply_defaults(...)
-        packed = kwmap = None
-        for a in ast.walk(w.node):
-            if isinstance(a, ast.Assign) and isinstance(a.value, ast.Call) and call_name(a.value) == "_apply_defaults" and isinstance(a.targets[0], (ast.Tuple, ast.List)) and len(a.targets[0].elts) == 2:
-                packed, kwmap = (norm(e) for e in a.targets[0].elts)
-        loops = [l for l in ast.walk(w.node) if isinstance(l, ast.For) and "sig.parameters" in " ".join(sorted(roots_with_closure(w, l.iter) | {norm(l.iter)}))]
-        ok = False
-        for l in loops:
-            names = [norm(e) for e in (l.target.elts if isinstance(l.target, ast.Tuple) else [l.target])]
-            for c in ast.walk(l):
-                if isinstance(c, ast.Call) and isinstance(c.func, ast.Attribute) and c.func.attr == "append" and norm(c.func.value) == packed and c.args \
-                        and any(norm(c.args[0]) == f"{kwmap}[{nm}]" for nm in names):
-                    ok = True
-        ck.check(ok, "G-PROV", "registry_helpers.check|keyword-arguments-in-signature-order", w.loc(),
-                 "keyword/default values are appended in signature order (zip with the declared dimensions is positional)",
-                 "keyword and default arguments are no longer collected by walking sig.parameters in order: dimensions are checked against the wrong arguments")
-        zips = [c for c in ast.walk(w.node) if isinstance(c, ast.Call) and call_name(c) == "zip" and len(c.args) == 2]
-        ck.check(any(norm(z.args[1]) == packed and any("get_dimensionality" in r for r in roots_with_closure(w, z.args[0])) for z in zips), "G-PROV", "registry_helpers.check|dimensions-zipped-with-arguments", w.loc(),
-                 "declared dimensions zipped with the packed arguments", "declared dimensions are not zipped with the packed argument list")
+    dec = returned_def(fi, "decorator")
+    w = returned_def(dec, "wrapper")
+    fn = w.node
+    from ..lib import roots_with_closure
+    pairs = [(st, b) for st, b in find_stores(fn, "(_P, _K)") if shape.match("_apply_defaults(*_R)", st.value) is not None]
+    ck.floor("G-PROV", len(pairs), 1, "unpacked result of _apply_defaults in registry_helpers.check.wrapper")
+    packed, kwmap = pairs[0][1]["_P"], pairs[0][1]["_K"]
+    npos = f"len({fn.args.vararg.arg})" if fn.args.vararg else "0"
+    # every addition to the packed list
+    added = additions(fn, packed) + [st.value for st, _ in find_stores(fn, packed) if isinstance(st, (ast.Assign, ast.AnnAssign)) and st is not pairs[0][0]]
+    good = []
+    for el in added:
+        m = shape.match(f"{kwmap}[_N]", el)
+        sw = signature_walk(el, w, npos) if m is not None else None
+        good.append(sw is not None and m["_N"] == sw[0] and sw[2])
+    ck.check(bool(good) and all(good), "G-PROV", "registry_helpers.check|keyword-arguments-in-signature-order", w.loc(),
+             "keyword/default values are appended in signature order (zip with the declared dimensions is positional)",
+             "keyword and default arguments are no longer collected by walking sig.parameters in order: dimensions are checked against the wrong arguments")
+    zips = [b for _, b in find_expr(fn, "zip(_D, _A)")]
+    ck.check(any(b["_A"] == packed and any("get_dimensionality" in r for r in roots_with_closure(w, ast.parse(b["_D"], mode="eval").body)) for b in zips), "G-PROV", "registry_helpers.check|dimensions-zipped-with-arguments", w.loc(),
+             "declared dimensions zipped with the packed arguments", "declared dimensions are not zipped with the packed argument list")
 
 
 def _const_return_is_to_verdict(fi, ret: ast.Return, value: bool) -> bool:
